@@ -136,6 +136,8 @@ def run(ctx, prop, known_sig=None):
             viols.append(("libfuzzer", replay_bytes(binp, data, ch) or v, data, ch))
         elif f.startswith(("timeout-", "oom-", "slow-unit-")):
             ctx.stats.inconclusive += 1
+    if prop == 5 and not viols:
+        e2e_c05(ctx, tree)
     ctx.exhaustive = True
     ctx.notes["exhaustive_part"] = "all strings over {CR,LF,'.','x'} up to length %d; every read-split up to length %d" % (maxlen, splitmax)
     # report
@@ -162,3 +164,89 @@ def replay(ctx, prop, path):
         if v:
             out.append(v)
     return out
+
+
+# ---------------------------------------------------------------- C05 end to end (real qmail-smtpd, interactive client)
+def _e2e_encode(lines):
+    out = b""
+    for l in lines:
+        out += (b"." if l.startswith(b".") else b"") + l + b"\r\n"
+    return out + b".\r\n"
+
+
+def _e2e_worker(job):
+    import time, shutil
+    from lib import sandbox
+    from hypothesis import strategies as st
+    tree, wid, seed, n = job
+    line = st.lists(st.sampled_from([b"x", b".", b"..", b"\r", b"a b", b"Received: q", b".x", b"\xe9", b""]), max_size=4).map(b"".join).map(vlib.jsonable)
+    scen = st.fixed_dictionaries({"lines": st.lists(line, max_size=8), "cuts": st.lists(st.integers(0, 400), max_size=2), "second": st.booleans()})
+    stats = vlib.Stats()
+    h = sandbox.Home(tree, os.path.join(vlib.scratch_root(), "c05e2e-%d" % wid))
+    h.control("me", "me.example\n")
+    rec = os.path.join(h.dir, "rec")
+
+    def runfn(sc, stats):
+        shutil.rmtree(rec, ignore_errors=True)
+        lines = [vlib.unjson(x) for x in sc["lines"]]
+        if any(l.startswith(b".\r") for l in lines):
+            stats.slack += 1          # '.'+bare-CR line: unspecified (see C05 slack)
+            return None
+        payload = _e2e_encode(lines)
+        rest = b"NOOP\r\n" + (b"MAIL FROM:<b@x>\r\nRCPT TO:<c@me.example>\r\nDATA\r\n" if sc["second"] else b"")
+        env = h.env(role="smtpd", uid=h.uids["d"], trace=False, QMAILQUEUE=sandbox.STANDIN, TCPREMOTEIP="1.2.3.4",
+                    **sandbox.standin_env(rec, read="01", qq=True))
+        s = sandbox.Session([tree.path("qmail-smtpd")], env)
+        try:
+            s.send(b"MAIL FROM:<a@x>\r\nRCPT TO:<r@me.example>\r\nDATA\r\n")
+            got = s.read_until(lambda b: (b.find(b"354") >= 0 and b.endswith(b"\n") and len(b)) or None)
+            if got is None:
+                stats.inconclusive += 1
+                return None
+            if b"354" not in got:
+                return "no 354 after DATA: %r" % got[-100:]
+            blob = payload + rest
+            if sc["second"]:
+                blob += b"second\r\n.\r\n"
+            blob += b"QUIT\r\n"
+            cuts = sorted({min(c, len(blob)) for c in sc["cuts"]})
+            pos = 0
+            for c in cuts + [len(blob)]:
+                if c > pos:
+                    s.send(blob[pos:c])
+                    pos = c
+                    time.sleep(0.002)
+            out = s.read_all()
+            if out is None:
+                stats.inconclusive += 1
+                return None
+            codes = [l[:3] for l in out.split(b"\r\n") if l]
+            want = [b"250", b"250"] + ([b"250", b"250", b"354", b"250"] if sc["second"] else []) + [b"221"]
+            stats.case(scenario=sc, nontrivial=any(b"." in l or b"\r" in l for l in lines), classes=["e2e"] + (["e2e_second_message"] if sc["second"] else []))
+            if codes != want:
+                return "reply sequence after the payload is %r, expected %r (the bytes after CRLF.CRLF are the next commands)" % (codes, want)
+            recs = [r for r in sandbox.standin_records(rec) if r.get("commit")]
+            if len(recs) != (2 if sc["second"] else 1):
+                return "%d messages committed, expected %d" % (len(recs), 2 if sc["second"] else 1)
+            body = recs[0]["fd0"]
+            nl = body.find(b"\n", body.find(b"\n") + 1) + 1      # the Received field is two lines
+            exp = b"".join(l + b"\n" for l in lines)
+            if body[nl:] != exp:
+                return "committed body %r differs from the transmitted lines %r" % (body[nl:][:80], exp[:80])
+            return None
+        finally:
+            s.kill()
+    vlib.hyp_search(scen, runfn, n, seed, stats)
+    return stats
+
+
+def e2e_c05(ctx, tree):
+    """The in-process harness drives blast() only; the code around it (buffer handling in smtp_data, the command loop that must see the
+    bytes after the terminator) is exercised here: real qmail-smtpd with the queue stand-in, an interactive client that waits for 354 and
+    then sends DATA payload + following commands in 1-3 writes at generated offsets (one read may deliver the terminator together with the
+    next commands - legal pipelining). Oracle: reply sequence 250, 250 (NOOP), [second transaction,] 221 and committed body = transmitted lines."""
+    from lib import sandbox
+    tree.make("qmail-smtpd")
+    sandbox.ensure_shim()
+    jobs = [(tree, i, vlib.subseed(ctx.seed, "c05e2e", i), ctx.n(40, 600)) for i in range(vlib.NCPU)]
+    ctx.stats.merge(vlib.run_workers(_e2e_worker, jobs))
